@@ -314,6 +314,18 @@ def native_build(ctx, L, harness, defines=(), sanitize=True, tag='n'):
     return exe
 
 
+def native_build_c(ctx, q, outdir=None):
+    """E2: the harness (reference + emitted code, plain C) compiled by the host compiler with sanitizers."""
+    outdir = outdir or os.path.dirname(q.cfiles[0])
+    exe = os.path.join(outdir, 'native_' + hashlib.md5((q.cfiles[0] + ' '.join(q.defines)).encode()).hexdigest()[:10])
+    cmd = ['gcc', '-std=gnu11', '-O0', '-g', '-w', '-DVNATIVE', '-I' + LIFT, '-fsanitize=address,undefined', '-fno-sanitize-recover=undefined'] \
+        + ['-D' + d for d in q.defines] + list(q.cfiles) + [os.path.join(LIFT, 'vnative.c'), '-o', exe, '-lm']
+    rc, o, e, s, _ = sh(cmd, timeout=300)
+    if rc != 0:
+        raise Inconclusive('native build of E2 harness failed: ' + e[-2000:])
+    return exe
+
+
 def gen_build(ctx, L, harness, defines=(), tag='g'):
     """gcc build of the *lifted C* + harness (translator validation)."""
     key = tag + hashlib.md5((harness + ' '.join(defines)).encode()).hexdigest()[:8]
@@ -350,16 +362,25 @@ class Query:
         self.backend = backend; self.desc = desc; self.known = known; self.extra = list(extra)
         self.backends = backends  # optional list to race
         self.classify = classify
+        self.cfiles = None        # E2: plain C files (L is None)
+        self.meta = {}            # E2: what is needed to regenerate the harness for a replay
+        self.tr_unwind_is_failure = False
 
 
 def files_for(q):
+    if q.L is None:
+        return list(q.cfiles)
     return [q.harness, q.L.c] + q.L.models
+
+
+def incs_for(q):
+    return [q.L.dir] if q.L is not None else []
 
 
 def run_query(ctx, q, witness=True):
     """returns dict record; performs witness twin, trace + native replay on failure."""
     rec = {'query': q.name, 'desc': q.desc, 'unwind': q.unwind, 'defines': q.defines, 'expect': q.expect}
-    r = cbmc_run(ctx, files_for(q), q.defines, q.unwind, q.unwindset, q.timeout, q.backend, extra=q.extra, incs=[q.L.dir])
+    r = cbmc_run(ctx, files_for(q), q.defines, q.unwind, q.unwindset, q.timeout, q.backend, extra=q.extra, incs=incs_for(q))
     rec.update(status=r.status, seconds=round(r.seconds, 2), rss_mb=r.rss_kb // 1024, backend=r.backend, properties=r.nprops)
     if r.status == 'inconclusive':
         rec['reason'] = r.reason
@@ -367,12 +388,28 @@ def run_query(ctx, q, witness=True):
     if r.status == 'fail':
         rec['failed'] = [list(x) for x in r.failed[:8]]
         unw = [x for x in r.failed if 'unwinding assertion' in (x[1] or '')]
-        if unw and len(unw) == len(r.failed):
+        if unw and len(unw) == len(r.failed) and not (q.tr_unwind_is_failure and all(re.match(r'(tr_|_occa_|LAUNCH_)', x[0] or '') for x in unw)):
             rec['status'] = 'inconclusive'; rec['reason'] = 'unwinding bound too small: %s' % unw[0][0]
             return rec
+    if r.status == 'pass' and witness and q.L is None and getattr(q, 'witness_vectors', None):
+        # vacuity guard, cheap form: a concrete input that satisfies every assumption and reaches the end of the
+        # harness when the same file is compiled natively (a failed assumption exits 3 before REACHED-END)
+        try:
+            exe = native_build_c(ctx, q)
+            for i, vec in enumerate(q.witness_vectors):
+                vp = exe + '.w%d' % i
+                with open(vp, 'w') as f:
+                    for k, v in vec.items():
+                        f.write('%s -1 i %x\n' % (k, v & 0xffffffffffffffff))
+                rc, o, e = run_native(exe, vp, timeout=20)
+                if rc == 0 and 'REACHED-END' in o:
+                    rec['witness'] = 'reached'; rec['witness_kind'] = 'native run on %s' % vec
+                    return rec
+        except Inconclusive as ex_:
+            rec['witness_note'] = str(ex_)[:300]
     if r.status == 'pass' and witness:
         # vacuity guard: the twin's final assert(0) must FAIL
-        w = cbmc_run(ctx, files_for(q), q.defines + ['WITNESS'], q.unwind, q.unwindset, q.timeout, q.backend, extra=q.extra, incs=[q.L.dir])
+        w = cbmc_run(ctx, files_for(q), q.defines + ['WITNESS'], q.unwind, q.unwindset, q.timeout, q.backend, extra=q.extra, incs=incs_for(q))
         rec['witness_seconds'] = round(w.seconds, 2)
         ok = w.status == 'fail' and any('WITNESS' in (x[1] or '') for x in w.failed)
         rec['witness'] = 'reached' if ok else 'NOT-REACHED(%s %s)' % (w.status, w.reason)
@@ -383,7 +420,7 @@ def run_query(ctx, q, witness=True):
 
 def replay_failure(ctx, q, rec, slot):
     """re-run with --trace, extract inputs, run natively against the g++ build of the real code."""
-    r = cbmc_run(ctx, files_for(q), q.defines, q.unwind, q.unwindset, max(q.timeout, 300), q.backend, trace=True, extra=q.extra, incs=[q.L.dir])
+    r = cbmc_run(ctx, files_for(q), q.defines, q.unwind, q.unwindset, max(q.timeout, 300), q.backend, trace=True, extra=q.extra, incs=incs_for(q))
     if r.trace_inputs is None:
         rec['replay'] = 'no trace (%s %s)' % (r.status, r.reason)
         return None, False
@@ -393,6 +430,22 @@ def replay_failure(ctx, q, rec, slot):
     write_values(vp, r.trace_inputs)
     rec['counterexample'] = {('%s[%d]' % k if k[1] >= 0 else k[0]): v[2] for k, v in sorted(r.trace_inputs.items())}
     rec['trace_property'] = [getattr(r, 'trace_prop', None)]
+    if q.L is None:
+        exe = native_build_c(ctx, q)
+        rc, o, e = run_native(exe, vp, timeout=20)
+        reproduced = rc not in (0, 3)
+        rec['replay_rc'] = rc
+        rec['replay_output'] = (o + e)[-1200:]
+        for cf in q.cfiles[:1]:
+            shutil.copy(cf, os.path.join(d, 'harness_at_detection.c'))
+        with open(os.path.join(d, 'README.txt'), 'w') as f:
+            f.write('property %s query %s\n%s\nfailed: %s\n' % (ctx.pid, q.name, q.desc, rec.get('failed')))
+            f.write('inputs: values.txt (hex).  harness_at_detection.c = reference + code emitted by occa translate at detection time.\n')
+            f.write('replay (regenerates the emitted code from the current tree): %s/check %s --replay %s\n' % (VERIF, ctx.pid, d))
+            f.write('native outcome rc=%s\n%s\n' % (rc, (o + e)[-3000:]))
+        with open(os.path.join(d, 'meta.json'), 'w') as f:
+            json.dump(dict(q.meta, kind='e2', property=ctx.pid, query=q.name, defines=q.defines), f, indent=1)
+        return d, reproduced
     exe = native_build(ctx, q.L, q.harness, q.defines)
     rc, o, e = run_native(exe, vp)
     reproduced = rc not in (0, 3)
@@ -546,6 +599,15 @@ def finish(ctx, bounds=None, rule='', trusted=None, extra=None):
 def do_replay(ctx, d):
     """re-run a stored counterexample against the g++ build of the real code in /repo's current tree"""
     meta = json.load(open(os.path.join(d, 'meta.json')))
+    if meta.get('kind') == 'e2':
+        import importlib
+        mod = importlib.import_module('props.' + ctx.pid)
+        q = mod.replay_query(ctx, meta)
+        exe = native_build_c(ctx, q)
+        rc, o, e = run_native(exe, os.path.join(d, 'values.txt'), timeout=20)
+        print(o[-3000:] + e[-3000:])
+        print('replay rc=%s (%s)' % (rc, 'reproduced' if rc not in (0, 3) else 'not reproduced'))
+        return 1 if rc not in (0, 3) else 0
     if meta.get('kind') == 'cmd':
         rc, o, e, s, _ = sh(['sh', '-c', meta['cmd']], timeout=900, cwd=d)
         print(o[-3000:] + e[-2000:])
